@@ -19,3 +19,11 @@ Proof.
   - split; [|exact Hlt]. pose proof (encode_rfc_nonempty t). apply N.lt_le_trans with 1; [reflexivity|assumption].
   - rewrite (ssize_exact_or_zero t Hwf). cbv zeta. apply N.ltb_lt in Hlt. rewrite Hlt. reflexivity.
 Qed.
+
+(* cbor_serialize into a large enough buffer emits exactly encode_rfc *)
+Lemma serialize_is_rfc : forall t size, wf_item t -> size < 2^64 -> len (encode_rfc t) <= size ->
+  serialize_into t size = Some (len (encode_rfc t), encode_rfc t).
+Proof.
+  intros t size Hwf Hs Hfit. destruct (PItem_proofs.C07_into t size Hwf Hs) as (ret & out & E & Hok & _).
+  destruct (Hok Hfit) as [-> ->]. exact E.
+Qed.
